@@ -351,7 +351,8 @@ SPEC = PropSpec(
                  "a hang (bounded interpreter steps). Does not decide rich's rendering."
                  ' The real framer is also run on a file with a maximum-size packet (thorough: a 45 MB file).'
                  " spp parse runs the library's real packet_generator over a header-only definition (only XML loading is stubbed), on empty, stray, complete and cut files and indices up to beyond the end."
-                 ' R19.4 also checks what `spp parse --packet i` shows (packet i of the file, or exactly one out-of-range message naming the number of packets) on files with idle (APID 2047), telecommand and repeated-count packets.'),
+                 ' R19.4 also checks what `spp parse --packet i` shows (packet i of the file, or exactly one out-of-range message naming the number of packets) on files with idle (APID 2047), telecommand and repeated-count packets.'
+                 ' Runs with DEBUG logging; files of prefixed records under --skip-header-bytes; segments are listed like any packet; the length column of a maximum-size packet.'),
     rule_doc="R19.1 one obligation per n; R19.2 per (n, index); R19.2g guard dominance; R19.3 per command; R19.4 per file kind",
     assumptions=["click passes the declared option types", "framer behaviour on sized sources as decided by C10"],
     mutants=mutants,
